@@ -93,7 +93,7 @@ PROPS = {
             dict(module="MC_ConcatM.tla", cfg="MC_ConcatM_preF2", expect="DesignOK"),
             dict(module="MC_ReplaceM.tla", cfg="MC_ReplaceM_attr", tier="quick"),
             dict(module="MC_ReplaceM.tla", cfg="MC_ReplaceM_attr_full", tier="thorough", timeout=1800)],
-        must_fire=["C06.concat_keeps_child_attribution", "C06.concat_lines_first_mapped_piece",
+        must_fire=["C06.concat_keeps_child_attribution", "C06.concat_stream_keeps_child_streams", "C06.concat_lines_first_mapped_piece",
                    "C06.replace_keeps_inner_attribution"],
         rule="children / inner sources are observed on their own and inside the composite; non-trivial = a SourceMapSource "
              "or user-defined child is involved",
